@@ -10,8 +10,7 @@ RUNTIME_PLAN = [
     ]},
     {'file': 'runtime/src/state.rs', 'items': [
         {'kind': 'type', 'match': r"^pub struct ParseState<'a>$"},
-        {'kind': 'impl', 'match': r"^impl<'a> ParseState<'a>$", 'drop': ['first_n_chars'],
-         'expect': ['new', 's', 'is_empty', 'advance', 'advance_safe', 'slice_until', 'range_until',
+        {'kind': 'impl', 'match': r"^impl<'a> ParseState<'a>$", 'expect': ['first_n_chars', 'new', 's', 'is_empty', 'advance', 'advance_safe', 'slice_until', 'range_until',
                     'cache_key', 'report_error', 'record_error', 'report_farthest_error', 'is_further_than']},
     ]},
     {'file': 'runtime/src/parse_result.rs', 'items': [
